@@ -157,7 +157,14 @@ class Emitter:
         elif k == "demfield":
             oid, name = self.uid("DEM")
             tid, tname = self.uid("DOP")
-            self.layer.dops.append(og.dop(tid, tname, self.dct(d["tdct"], key_ids), ptype=BASE[d["tdct"]["base"]]))
+            # the end marker's data object converts only the values around the marker: probing an item whose first byte it
+            # cannot convert fails after the bytes were read (the field must go on from where the probe started)
+            compu = og.IDENTICAL
+            if d["tdct"]["base"] == "uint" and d["tv"]["t"] == "int" and int(d["tv"]["v"]) >= 16:
+                tv = int(d["tv"]["v"])
+                compu = og.compu_method("LINEAR", [og.compu_scale(lower=og.limit("LOWER-LIMIT", tv - 15, "CLOSED"),
+                                                                  upper=og.limit("UPPER-LIMIT", tv, "CLOSED"), num=[0, 1])])
+            self.layer.dops.append(og.dop(tid, tname, self.dct(d["tdct"], key_ids), ptype=BASE[d["tdct"]["base"]], compu=compu))
             self.layer.dem_fields.append(og.dynamic_endmarker_field(oid, name, sid, tid, d["tv"]["v"]))
         else:
             raise tlc.MachineryError(f"dop {k}")
